@@ -100,26 +100,30 @@ func runC02(c *mon.Ctx) {
 			k.Skip("seed larger than the tier's input limit")
 			return
 		}
-		a0 := mon.TotalAlloc()
 		ok := c02run(k, sd.dec, sd.data, sd.origin)
-		_ = a0
 		k.DistinctBytes(sd.data)
 		k.Class("seed-origin:" + strings.SplitN(sd.origin, ":", 2)[0])
 		if ok {
 			k.Class("seed-accepted:" + sd.dec)
-			// calibration record: a second, unobserved run measures the ratios of valid input only
-			val, src, _ := c02decode[sd.dec](sd.data)
-			_ = val
-			if src != nil {
-				k.Max("calib:valid-seeds:calls/bound", float64(src.Calls)/float64(mon.C02CallBound(len(sd.data))))
-				k.Max("calib:valid-seeds:bytes/bound", float64(src.Bytes)/float64(mon.C02ByteBound(len(sd.data))))
+			// calibration record: ratios of the accepted (valid) seeds only
+			n := len(sd.data)
+			al, calls := c02last.alloc, c02last.calls
+			k.Max("calib:valid-seeds:alloc/bound", float64(al)/float64(mon.C02AllocBound(n)))
+			k.Max("calib:valid-seeds:alloc-bytes(absolute)", float64(al))
+			if c02last.hasSrc {
+				k.Max("calib:valid-seeds:calls/bound", float64(calls)/float64(mon.C02CallBound(n)))
+				k.Max("calib:valid-seeds:calls(absolute)", float64(calls))
 			}
-			al := mon.MeasureAlloc(func() { c02decode[sd.dec](sd.data) })
-			k.Max("calib:valid-seeds:alloc/bound", float64(al)/float64(mon.C02AllocBound(len(sd.data))))
+			if n >= 16<<10 {
+				k.Max("calib:valid-seeds(len>=16KiB):alloc-bytes-per-input-byte", float64(al)/float64(n))
+				if c02last.hasSrc {
+					k.Max("calib:valid-seeds(len>=16KiB):calls-per-input-byte", float64(calls)/float64(n))
+				}
+			}
 			if strings.HasPrefix(sd.origin, "corpus:") {
-				k.Max("calib:corpus:alloc/bound", float64(al)/float64(mon.C02AllocBound(len(sd.data))))
-				if src != nil {
-					k.Max("calib:corpus:calls/bound", float64(src.Calls)/float64(mon.C02CallBound(len(sd.data))))
+				k.Max("calib:corpus:alloc/bound", float64(al)/float64(mon.C02AllocBound(n)))
+				if c02last.hasSrc {
+					k.Max("calib:corpus:calls/bound", float64(calls)/float64(mon.C02CallBound(n)))
 				}
 			}
 		}
